@@ -118,6 +118,7 @@ pub fn c04(thorough: bool) -> Vec<Unit> {
     for n in if thorough { vec![4, 6, 7] } else { vec![4, 5] } {
         v.push(seq_unit(cfg("deadlines", "two subscriptions with 10 s and 15 s deadlines, deliveries handed out at different instants, probes 1 ms before and just after each deadline", setup.clone(), alphabet.clone(), n)));
     }
+    v.push(c04_phase_sweep(thorough));
     v
 }
 
@@ -142,6 +143,7 @@ pub fn c05(thorough: bool) -> Vec<Unit> {
     for n in if thorough { vec![4, 6] } else { vec![4, 5] } {
         v.push(seq_unit(cfg("modify", "modifications (extend, shorten, cap at 600, nack) mixed with pulls, acks and deadline crossings", base_setup(), alphabet.clone(), n)));
     }
+    v.push(c05_input(thorough));
     v
 }
 
@@ -221,4 +223,134 @@ pub fn c11(thorough: bool) -> Vec<Unit> {
         v.push(seq_unit(c));
     }
     v
+}
+
+// ---------------------------------------------------------------------------------------------
+// input sweeps of C04 / C05: scripted operation lists with data choices, judged by the same model
+
+use crate::explore::Verdict;
+use crate::model::Model;
+use crate::world::{ScenarioOut, SLACK_MS};
+use crate::{scen, tryv};
+
+async fn cross_all_deadlines(cx: &crate::world::Ctx, st: &mut SeqState, pull: Option<&'static str>) -> Result<(), Verdict> {
+    for _ in 0..40 {
+        if st.model.earliest_lo().is_none() {
+            return Ok(());
+        }
+        if Op::AdvBefore.enabled(&st.model) {
+            apply(cx, st, &Op::AdvBefore, false).await?;
+            if let Some(s) = pull {
+                apply(cx, st, &Op::Pull(s, 10), false).await?;
+            }
+        }
+        apply(cx, st, &Op::AdvPast, false).await?;
+        if let Some(s) = pull {
+            // the redelivery must be handed out again (new ack id), and acknowledging the old id must not touch it
+            apply(cx, st, &Op::Pull(s, 10), false).await?;
+            if Op::AckStale(s).enabled(&st.model) {
+                apply(cx, st, &Op::AckStale(s), false).await?;
+            }
+            if st.model.now_ms > 2_000_000 {
+                return Ok(());
+            }
+            // after two redeliveries stop the chain by acknowledging
+            if st.model.subs[s].stale_ack_ids.len() >= 3 && Op::AckAll(s).enabled(&st.model) {
+                apply(cx, st, &Op::AckAll(s), false).await?;
+            }
+        }
+    }
+    Ok(())
+}
+
+/// C04: every 1 ms phase of the hand-out instant x ack_deadline_seconds values x consumer kind.
+pub fn c04_phase_sweep(thorough: bool) -> Unit {
+    let dls: Vec<i32> = vec![-1, 0, 5, 10, 11, 15, 60, 600];
+    let phases: Vec<u64> = if thorough { (0..200).map(|i| i * 500).collect() } else { (0..100).map(|i| i * 1000).collect() };
+    let dls_desc = format!("{:?}", dls);
+    let f: ScenFn = scen!([dls] |cx| {
+        let dl = dls[cx.choose("ack_deadline_seconds", dls.len())];
+        let via_stream = cx.choose("consumer", 2) == 1;
+        let mut st = SeqState { model: Model::default(), trace: vec![], states: vec![], payload_counter: 0, streams: Default::default() };
+        tryv!(apply(&cx, &mut st, &Op::CreateTopic(T0), false).await);
+        tryv!(apply(&cx, &mut st, &Op::CreateSub(S0, T0, dl), false).await);
+        if via_stream {
+            tryv!(apply(&cx, &mut st, &Op::StreamOpen(S0, 1000), false).await);
+        }
+        tryv!(apply(&cx, &mut st, &Op::Publish(T0, 1), false).await);
+        if !via_stream {
+            tryv!(apply(&cx, &mut st, &Op::Pull(S0, 1), false).await);
+        }
+        // 1 ms before the deadline it must still be leased, at deadline + slack it must be available again (three times)
+        for _ in 0..3 {
+            if st.model.earliest_lo().is_none() {
+                return ScenarioOut::viol("setup/no-lease", "the message was not handed out".to_string());
+            }
+            tryv!(apply(&cx, &mut st, &Op::AdvBefore, false).await);
+            if !via_stream {
+                tryv!(apply(&cx, &mut st, &Op::Pull(S0, 10), false).await);
+            }
+            tryv!(apply(&cx, &mut st, &Op::AdvPast, false).await);
+            if !via_stream {
+                tryv!(apply(&cx, &mut st, &Op::Pull(S0, 10), false).await);
+                tryv!(apply(&cx, &mut st, &Op::AckStale(S0), false).await);
+            }
+        }
+        tryv!(drain(&cx, &mut st).await);
+        ScenarioOut { verdict: Verdict::Ok(format!("dl={} via_stream={}", dl, via_stream)), model_states: st.states, validated: true, sample: Some(st.trace.join(" ; ")) }
+    });
+    explore_unit(
+        "input/phase-sweep",
+        format!("hand-out at every {} phase of the server's 100 ms deadline grid x ack_deadline_seconds {:?} x (Pull | open StreamingPull): still leased 1 ms before the deadline (max(10, value) s), redelivered with a new ack id by deadline + {} ms, old ack id inert; three consecutive deadlines", if thorough { "0.5 ms" } else { "1 ms" }, dls_desc, SLACK_MS),
+        Bounds::new(0),
+        ExecCfg { points_on: false, phase_choices: phases, ..Default::default() },
+        f,
+    )
+}
+
+/// C05: N x id lists x (unary | streaming).
+pub fn c05_input(thorough: bool) -> Unit {
+    use IdKind::*;
+    let ns: Vec<i32> = vec![i32::MIN, -1, 0, 1, 9, 10, 11, 599, 600, 601, i32::MAX];
+    let kinds = [A, B, Stale, Unknown, BadX, BadEmpty];
+    let mut lists: Vec<Vec<IdKind>> = vec![vec![]];
+    for a in kinds {
+        lists.push(vec![a]);
+        for b in kinds {
+            if b != a {
+                lists.push(vec![a, b]);
+                for c in kinds {
+                    if c != a && c != b {
+                        lists.push(vec![a, b, c]);
+                    }
+                }
+            }
+        }
+    }
+    let phases: Vec<u64> = if thorough { vec![0, 37_000, 99_000] } else { vec![37_000] };
+    let nl = lists.len();
+    let ns_desc = format!("{:?}", ns);
+    let f: ScenFn = scen!([ns, lists] |cx| {
+        let n = ns[cx.choose("seconds", ns.len())];
+        let list = lists[cx.choose("ids", nl)].clone();
+        let via_stream = cx.choose("path", 2) == 1;
+        let mut st = SeqState { model: Model::default(), trace: vec![], states: vec![], payload_counter: 0, streams: Default::default() };
+        // a, b outstanding (handed out 3 s apart, so their deadlines differ), one stale id
+        for op in [Op::CreateTopic(T0), Op::CreateSub(S0, T0, 10), Op::Publish(T0, 1), Op::Pull(S0, 1), Op::Ack(S0, Which::Oldest), Op::Publish(T0, 1), Op::Pull(S0, 1), Op::Adv(3_000), Op::Publish(T0, 1), Op::Pull(S0, 1), Op::Adv(2_000)] {
+            tryv!(apply(&cx, &mut st, &op, false).await);
+        }
+        tryv!(apply(&cx, &mut st, &Op::ModIds(S0, list.clone(), n, via_stream), false).await);
+        // N = 0: immediately available again (checked by the stats comparison inside apply); otherwise probe every deadline
+        let pull_sub = if via_stream && st.streams.contains_key(S0) { None } else { Some(S0) };
+        tryv!(cross_all_deadlines(&cx, &mut st, pull_sub).await);
+        tryv!(drain(&cx, &mut st).await);
+        ScenarioOut { verdict: Verdict::Ok(format!("n={} ids={} stream={}", n.signum(), list.len(), via_stream)), model_states: st.states, validated: true, sample: Some(format!("N={} ids={:?} via_stream={}", n, list, via_stream)) }
+    });
+    explore_unit(
+        "input/modify",
+        format!("ModifyAckDeadline with N in {:?} x every ordered list of <=3 distinct ids from {{outstanding a, outstanding b, stale, unknown, malformed 'x', malformed ''}} ({} lists) x (unary | StreamingPull control message); afterwards every deadline is probed 1 ms before and just after", ns_desc, nl),
+        Bounds::new(0),
+        ExecCfg { points_on: false, phase_choices: phases, ..Default::default() },
+        f,
+    )
 }
